@@ -153,6 +153,9 @@ func hTokenize(js []byte) (toks []string, ok bool, why string) {
 		matched := false
 		for _, p := range hPuncts {
 			if i+len(p) <= n && string(js[i:i+len(p)]) == p {
+				if p == "?." && i+2 < n && hIsDigit(js[i+2]) {
+					continue // OptionalChainingPunctuator :: ?. [lookahead not DecimalDigit]
+				}
 				toks = append(toks, p)
 				// after ) ] } an operator is expected; after ++/-- that follow an
 				// operand too
